@@ -63,20 +63,21 @@ type nilEngine struct {
 	fns []*ssa.Function // functions whose obligations are reported (scope)
 	all []*ssa.Function // functions analysed for summaries (scope + proto getters they call)
 
-	paramNN   map[*ssa.Parameter]bool
-	paramDyn  map[*ssa.Parameter]bool // interface parameter whose dynamic value is a non-nil pointer at every call site
-	paramCell map[string]bool         // "<fn>|<param>.<field>" -> the cell is non-nil at entry (all call sites establish it)
-	cellWant  map[string]bool         // candidate param cells
-	retNN     map[*ssa.Function][]bool
-	retPair   map[*ssa.Function][]int // result idx -> error result idx when "err == nil => result non-nil", else -1
-	predNN    map[*ssa.Function][]int // bool function: returns true => these params are non-nil
-	mods      map[*ssa.Function]map[string]bool
-	extTypes  map[string]string
-	entryNN   map[*ssa.Parameter]bool // contracts
-	roots     map[*ssa.Function]bool
-	mapValsNN map[ssa.Value]int // memo: 0 unknown, 1 yes, 2 no
-	mapUpd    []*ssa.MapUpdate
-	structInv map[string]int // "Type.field" -> 1 invariant non-nil, 2 no
+	protoRepDepth int
+	paramNN       map[*ssa.Parameter]bool
+	paramDyn      map[*ssa.Parameter]bool // interface parameter whose dynamic value is a non-nil pointer at every call site
+	paramCell     map[string]bool         // "<fn>|<param>.<field>" -> the cell is non-nil at entry (all call sites establish it)
+	cellWant      map[string]bool         // candidate param cells
+	retNN         map[*ssa.Function][]bool
+	retPair       map[*ssa.Function][]int // result idx -> error result idx when "err == nil => result non-nil", else -1
+	predNN        map[*ssa.Function][]int // bool function: returns true => these params are non-nil
+	mods          map[*ssa.Function]map[string]bool
+	extTypes      map[string]string
+	entryNN       map[*ssa.Parameter]bool // contracts
+	roots         map[*ssa.Function]bool
+	mapValsNN     map[ssa.Value]int // memo: 0 unknown, 1 yes, 2 no
+	mapUpd        []*ssa.MapUpdate
+	structInv     map[string]int // "Type.field" -> 1 invariant non-nil, 2 no
 
 	// per-function analysis results of the current round
 	in    map[*ssa.BasicBlock]fstate
@@ -1324,11 +1325,34 @@ func (e *nilEngine) isProtoRepeated(slice ssa.Value) bool {
 		}
 	case *ssa.Phi:
 		for _, ed := range x.Edges {
+			if ed == slice {
+				continue
+			}
 			if !e.isProtoRepeated(ed) {
 				return false
 			}
 		}
 		return len(x.Edges) > 0
+	case *ssa.Parameter:
+		// a helper's slice parameter: every call site hands it a repeated proto field
+		fn := x.Parent()
+		idx := paramIndex(x)
+		callers := e.c.P.Callers(fn)
+		if idx < 0 || len(callers) == 0 || e.protoRepDepth > 3 {
+			return false
+		}
+		e.protoRepDepth++
+		defer func() { e.protoRepDepth-- }()
+		for _, ce := range callers {
+			if ce.Site == nil {
+				return false
+			}
+			cc := ce.Site.Common()
+			if cc.IsInvoke() || cc.StaticCallee() == nil || idx >= len(cc.Args) || !e.isProtoRepeated(cc.Args[idx]) {
+				return false
+			}
+		}
+		return true
 	}
 	return false
 }
